@@ -192,6 +192,16 @@ static void blk_sm9(void) {
 		switch (v) { case 1: BN_bin2bn(g2 + 65, 32, t); BN_sub(t, P9, t); BN_bn2binpad(t, o + 65, 32); BN_bin2bn(g2 + 97, 32, t); BN_sub(t, P9, t); BN_bn2binpad(t, o + 97, 32); nm = "negated(valid)"; break; case 2: o[128] ^= 1; nm = "y0^1"; break; case 3: memset(o + 1, 0, 128); nm = "zero"; break; case 4: memcpy(o + 1, pb, 32); nm = "x1=p"; break; case 5: memcpy(o + 33, pb, 32); nm = "x0=p"; break; case 6: memcpy(o + 65, pb, 32); nm = "y1=p"; break; case 7: memcpy(o + 97, pb, 32); nm = "y0=p"; break; case 8: o[0] = 2; nm = "prefix2"; break; }
 		int want = o[0] == 4 && g2_ok(o + 1, bv); SM9_Z256_TWIST_POINT P; int r = sm9_z256_twist_point_from_uncompressed_octets(&P, o); vh_eval(vh_mix(v + 101)); char key[128];
 		if ((r == 1) != want) { snprintf(key, sizeof key, "C12:sm9_z256_twist_point_from_uncompressed_octets:%s:%s", r == 1 ? "accepts" : "rejects", nm); vh_viol(key, "\"octets\":\"%s\"", vh_hex(o, 129)); } }
+	/* aliases c+p of a coordinate of a GENUINE point (they name the same residue, so only the range check can refuse them): multiples of the
+	   generators until every coordinate position has had a value small enough for c+p to fit in 256 bits */
+	{ int seen1[2] = { 0, 0 }, seen2[4] = { 0, 0, 0, 0 }; BIGNUM *lim = BN_new(); BN_one(lim); BN_lshift(lim, lim, 256);
+	  for (int k = 1; k <= 60; k++) { if (!vh_next()) continue; sm9_z256_t kk = { (uint64_t)k, 0, 0, 0 }; SM9_Z256_POINT P; SM9_Z256_TWIST_POINT Q; sm9_z256_point_mul_generator(&P, kk); sm9_z256_twist_point_mul_generator(&Q, kk); uint8_t o1[65], o2[129]; sm9_z256_point_to_uncompressed_octets(&P, o1); sm9_z256_twist_point_to_uncompressed_octets(&Q, o2);
+		if (!g1_ok(o1 + 1) || !g2_ok(o2 + 1, bv)) { vh_viol("C12:sm9:multiple-of-generator-off-curve-in-reference", "\"k\":%d", k); continue; }
+		for (int j = 0; j < 2; j++) { BN_bin2bn(o1 + 1 + 32 * j, 32, t); BN_add(t, t, P9); if (BN_cmp(t, lim) >= 0) continue; uint8_t o[65]; memcpy(o, o1, 65); BN_bn2binpad(t, o + 1 + 32 * j, 32); SM9_Z256_POINT R; int r = sm9_z256_point_from_uncompressed_octets(&R, o); seen1[j]++; vh_eval(vh_mix(5000 + k * 8 + j)); if (r == 1) { char key[128]; snprintf(key, sizeof key, "C12:sm9_z256_point_from_uncompressed_octets:accepts:%s+p", j ? "y" : "x"); vh_viol(key, "\"k\":%d,\"octets\":\"%s\"", k, vh_hex(o, 65)); } }
+		for (int j = 0; j < 4; j++) { static const char *CN[4] = { "x1", "x0", "y1", "y0" }; BN_bin2bn(o2 + 1 + 32 * j, 32, t); BN_add(t, t, P9); if (BN_cmp(t, lim) >= 0) continue; uint8_t o[129]; memcpy(o, o2, 129); BN_bn2binpad(t, o + 1 + 32 * j, 32); SM9_Z256_TWIST_POINT R; int r = sm9_z256_twist_point_from_uncompressed_octets(&R, o); seen2[j]++; vh_eval(vh_mix(6000 + k * 8 + j)); if (r == 1) { char key[128]; snprintf(key, sizeof key, "C12:sm9_z256_twist_point_from_uncompressed_octets:accepts:%s+p", CN[j]); vh_viol(key, "\"k\":%d,\"octets\":\"%s\"", k, vh_hex(o, 129)); }
+			/* the same alias inside the key containers */
+			if (j < 4) { SM9_SIGN_MASTER_KEY M; memset(&M, 0, sizeof M); uint8_t der[300], *dp = der; size_t dl = 0; M.Ppubs = Q; if (sm9_sign_master_public_key_to_der(&M, &dp, &dl) == 1) { for (size_t q = 0; q + 129 <= dl; q++) if (!memcmp(der + q, o2, 129)) { memcpy(der + q, o, 129); break; } const uint8_t *cp = der; size_t rem = dl; SM9_SIGN_MASTER_KEY M2; if (sm9_sign_master_public_key_from_der(&M2, &cp, &rem) == 1) { char key[128]; snprintf(key, sizeof key, "C12:sm9_sign_master_public_key_from_der:accepts:%s+p", CN[j]); vh_viol(key, "\"k\":%d", k); } } } } }
+	  if (vh_shard == 0 && !vh_replay_block) vh_sample("{\"block\":\"sm9-points\",\"alias_cases_g1\":[%d,%d],\"alias_cases_g2\":[%d,%d,%d,%d]}", seen1[0], seen1[1], seen2[0], seen2[1], seen2[2], seen2[3]); BN_free(lim); }
 	BN_free(t);
 }
 static void body(void) { blk_points(); blk_octets(); blk_scalars(); blk_sm9(); }
